@@ -427,6 +427,7 @@ func main() {
 	tokCases(gen.New(), thorough)
 	logAppendCases(thorough)
 	controlCases(thorough)
+	earlyCloseCases()
 	expiredCases(r, thorough)
 	readerCases(r, thorough)
 }
